@@ -369,7 +369,7 @@ theorem whole_table_one_row (env : Env N) (data : Row N) (t : String) (rows : Li
     intro r hr
     simp [evalPred_sound env ⟨data, false, false, _, _⟩ rfl r p (hwt r hr), rawBool])]
   have hmem : "count" ∈ aggrNames := by decide
-  simp [isAllAggr, sortRows, window_none, evalSel, evalExpr, hmem, evalAggrArgs, callBuiltin, callBody,
+  simp [isAllAggr, selectRowsWith, sortRows, window_none, evalSel, evalExpr, hmem, evalAggrArgs, callBuiltin, callBody,
     arityOf, arities, starOf, lookup?, valueOf, setKey, bind, Except.bind, pure, Except.pure]
 
 end whole
